@@ -7,6 +7,7 @@ import fam_dyn
 import fam_ef
 import fam_compressed
 import fam_plm
+import fam_cwrap
 
 
 class Unit:
@@ -195,3 +196,22 @@ U('ms_add_point', fam_plm, 'make_segmentation__add_point', ['C03', 'C02', 'C17']
 U('make_segmentation', fam_plm, 'make_segmentation', ['C02', 'C03', 'C17'], attach=['make_segmentation__add_point'], assumed=['OPLM_ctor', 'OPLM_get_segment', 'ms_out', 'OPLM_add_point'],
   decls=['plm_ghost', 'feed_ghost', 'feed_ghost2'], lemmas=['lemma_in_sorted'], insts=PLM_K[:1], thorough_insts=PLM_K, spec=('plm.spec',), timeout=1800, partition=24, mem_gb=10,
   assumptions=[FEED_NOTE, 'integer keys (the floating-point branch with nextafter is compiled but dead for the instantiated key types)'])
+
+U('make_segmentation_par', fam_plm, 'make_segmentation_par', ['CXX_not_registered_yet'], stubs=['make_segmentation'],
+  assumed=['make_segmentation4', 'ms_out2', 'pgmv_omp_get_num_procs', 'pgmv_omp_get_max_threads'], decls=['plm_ghost', 'feed_ghost', 'feed_ghost2', 'par_ghost'],
+  lemmas=['lemma_in_sorted'], insts=PLM_K[:1], spec=('plm.spec',), timeout=1800, partition=16, mem_gb=10, unwind=22, mode='W',
+  cases=[('PGMV_PAR', str(p_)) for p_ in (2, 3, 16, 20)], drop_checks=['--conversion-check'],
+  assumptions=[FEED_NOTE, 'width-complete per case: the chunk loop is unwound for a fixed number of chunks (cases 2, 3, 16, 20 quick; the duplicate-skipping loop is closed by a loop contract)',
+               'OpenMP: the parallel loop is verified as a sequential loop (iterations write disjoint results[i] and a reduction variable)'])
+
+
+# ---------------------------------------------------------------------------------------------------
+# C interface: PGMWrapper::search
+U('cwrap_search', fam_cwrap, 'PGMWrapper_search', ['C18', 'C17'], assumed=['PGMWrapper_segment_for_key', 'Segment_call'], decls=['cwrap_ghost', 'cwrap_ghost2'],
+  macros=fam_cwrap.MACROS, insts=[kinst('uint64_t'), kinst('int32_t')], thorough_insts=[kinst(k) for k in ('int32_t', 'int64_t', 'uint32_t', 'uint64_t')],
+  spec=('cwrap.spec',), assumptions=[ACC_NOTE, 'the inherited segment_for_key is replaced by the contract proved in unit pgmindex_segment_for_key',
+                                     'the macro-generated extern "C" functions (create/destroy/forwarding) are not under contract'])
+
+U('dyn_merge', fam_dyn, 'Dyn_merge', ['C05', 'C17'], inline=['Item_deleted'], assumed=['pgmv_copy_Item'], decls=['dyn_ghost', 'dyn_mergeview'],
+  lemmas=['lemma_strict2', 'lemma_absent2'], insts=DYN_Q, thorough_insts=DYN_ALL, spec=('dyn.spec',), timeout=1500, partition=16, mem_gb=10,
+  assumptions=[DYN_NOTE, 'range std::move / std::copy replaced by an element-wise copy contract [A]', 'merge is called with ranges starting at index 0 (as pairwise_merge does)'])
